@@ -30,6 +30,12 @@ Scope notes (read before counting these as evidence):
     {"cls": "CDevice2", "kind": "single-subrange-cbound", "check": <linear-between|antiderivative|end-point>} only when the
     observed value is what the finding predicts (the curve evaluated at the sum of the WHOLE flow vector); any other
     deviation in such a device keeps the ordinary kind and is reported as a new violation.
+Generator additions (round 3, from the blind-spot audit): GDevice cost curves of degree 4-5 with SIGNED lower-order
+coefficients (1-D and per-slot; the polynomial may be negative on part of the range); CDevice2 with 4-6 contiguous cumulative
+ranges; slots of width 2^-30..2^-24 (1e-9..6e-8, dyadic flows) that are NOT zero-width; TDevice at freezer / cold-climate
+temperatures (t_optimal -25..5, t_external -30..45, |efficiency| up to 8); PROBES (oracle only): parameters outside a
+validator (IDevice2 / CDevice2 slopes > 0, CDevice a > 0, IDevice c < 0): the constructor may reject them (fine), but if it
+ACCEPTS them the documented closed form / end-points must hold for the GIVEN values.
 Generator additions: narrow but NON-degenerate slots / cumulative bands at a large level (1024 and 1024 + 2^-8: narrower
 than numpy's isclose tolerance 1e-8 + 1e-5*|x|), CDevice with slope a = 0 and offset b != 0 (30% of CDevice cases).
 """
@@ -131,6 +137,37 @@ def single_subrange(d):
   return d['cls'] == 'CDevice2' and len(cbs) == 1 and (int(cbs[0][2]) != 0 or int(cbs[0][3]) != d['n'])
 
 
+PROBES = ['IDevice2.p>0', 'IDevice2.p>0', 'CDevice2.p>0', 'CDevice.a>0', 'IDevice.c<0']
+
+
+def gen_probe(rng, tier, name):
+  """parameters OUTSIDE a validator.  Rejection (ValueError) is the expected outcome and is fine for C15; if the
+  constructor accepts them, the documented formulas must hold for the values that were GIVEN."""
+  cls = name.split('.')[0]
+  while True:
+    d = gen.gen_leaf(rng, tier, [cls])
+    if any(a != b for a, b in zip(d['lb'], d['hb'])):
+      break
+  n, p = d['n'], d['prm']
+  L = lambda v: [fs(x) for x in v]
+  if name == 'IDevice2.p>0':
+    if rng.random() < 0.5:
+      pl = dy(rng, -2, 1); ph = max(pl, F(0)) + dy(rng, Fraction(1, 4), 2)
+      p['p_l'], p['p_h'] = fs(pl), fs(ph)
+    else:
+      pls = [dy(rng, -2, 1) for _ in range(n)]; phs = [max(x, F(0)) + dy(rng, 0, 2) for x in pls]
+      phs[rng.randrange(n)] += Fraction(1, 4)
+      p['p_l'], p['p_h'] = L(pls), L(phs)
+  elif name == 'CDevice2.p>0':
+    pl = dy(rng, -2, 1); p['p_l'] = fs(pl); p['p_h'] = fs(max(pl, F(0)) + dy(rng, Fraction(1, 4), 2))
+  elif name == 'CDevice.a>0':
+    p['a'] = fs(dy(rng, Fraction(1, 4), 3))
+  elif name == 'IDevice.c<0':
+    p['c'] = fs(-dy(rng, Fraction(1, 4), 2))
+  d['_special'] = 'probe:' + name
+  return d
+
+
 class C15(Prop):
   id = 'C15'
   lean_module = 'DK.Props.C15'
@@ -170,22 +207,40 @@ class C15(Prop):
   def cases(self, rng, tier, count):
     out = []
     for _ in range(count):
-      d = gen.gen_leaf(rng, tier)
-      self._special(rng, d)
+      probe = None
+      if rng.random() < 0.04:
+        probe = rng.choice(PROBES)
+        d = gen_probe(rng, tier, probe)
+      else:
+        d = gen.gen_leaf(rng, tier)
+        self._special(rng, d)
       mode = rng.choice(['interior', 'mixed', 'mixed', 'onbound', 'lower', 'upper'])
+      if d.get('_special') == 'tiny-slot' and mode in ('interior', 'mixed'):
+        mode = 'onbound'      # dyadic positions only: (x - x_l)/(x_h - x_l) is then exact in binary floating point
       if mode == 'onbound':
         lb = [F(x) for x in d['lb']]; hb = [F(x) for x in d['hb']]
         s = [fs(rng.choice([a, b, a + (b - a)*Fraction(rng.randint(1, 7), 8)])) for a, b in zip(lb, hb)]
       else:
         s = gen.leaf_flow(rng, d, mode)
       case = {'dev': d, 's': s, 'p': gen.gen_price(rng, d['n']), '_shape': rng.choice(['flat', 'flat', 'row'])}
-      if d['cls'] == 'IDevice' and rng.random() < 0.25:
+      if probe:
+        case['probe'] = probe; case['oracle_only'] = True
+      if d['cls'] == 'IDevice' and not probe and rng.random() < 0.25:
         # real exponents: covered by the theorem (generic pow) and the oracle, not by the integer-power executable model
         nb = lambda: rng.choice(['1/2', '3/2', '5/2', '5/4', '3'])
         d['prm']['b'] = nb() if rng.random() < 0.5 else [nb() for _ in range(d['n'])]
         case['oracle_only'] = True
       out.append(case)
     return out
+
+  def corpus(self):
+    # the Lean witness DK.C15.cdevice2_single_subrange_counterexample replayed on the implementation on every run, so that the
+    # open finding is reproduced (same KNOWN-FINDING lines) whatever the seed draws
+    d = {'cls': 'CDevice2', 'n': 4, 'lb': ['0', '0', '0', '0'], 'hb': ['2', '2', '2', '2'], 'cbs': [['1', '3', 1, 3]],
+         'prm': {'p_l': '-2', 'p_h': '0'}, '_py': {'bform': 'table', 'cform': '4tuples'}}
+    d2 = copy.deepcopy(d); d2['lb'] = ['1', '0', '0', '1']      # outer slots cannot be emptied: the end-point check differs too
+    return [{'dev': d, 's': ['1', '1/2', '1/2', '1'], 'p': '0', '_shape': 'flat'},
+            {'dev': d2, 's': ['1', '1/2', '1/2', '1'], 'p': '0', '_shape': 'flat'}]
 
   def _special(self, rng, d):
     """boundary configurations the plain generator hardly ever draws (in place)."""
@@ -218,8 +273,55 @@ class C15(Prop):
       d['cbs'] = [[fs(l), fs(l + tiny), 0, n]]
       d['_py']['cform'] = rng.choice(['2tuple', '4tuples'])
       d['_special'] = 'narrow-band'
+    elif cls in ('IDevice', 'IDevice2') and rng.random() < 0.12:
+      # slots of width 1e-9 .. 6e-8: far below any "strip the float noise" rounding, yet not zero-width
+      lb = [F(x) for x in d['lb']]; hb = [F(x) for x in d['hb']]
+      ks = [k for k in range(n) if rng.random() < 0.5] or [rng.randrange(n)]
+      for k in ks:
+        lb[k] = dy(rng, 0, 4); hb[k] = lb[k] + Fraction(1, 2**rng.choice([24, 26, 27, 28, 30]))
+      d['lb'] = [fs(x) for x in lb]; d['hb'] = [fs(x) for x in hb]
+      d['cbs'] = []; d['_py']['cform'] = None
+      d['_py']['bform'] = 'table' if (n == 2 or d['_py'].get('bform') == 'scalar') else d['_py'].get('bform', 'table')
+      d['_special'] = 'tiny-slot'
+    elif cls == 'CDevice2' and n >= 4 and rng.random() < 0.3:
+      # 4 - 6 contiguous cumulative ranges covering the horizon, each with its own limits
+      lb = [F(x) for x in d['lb']]; hb = [F(x) for x in d['hb']]
+      k = rng.randint(4, min(6, n))
+      pts = [0] + sorted(rng.sample(range(1, n), k - 1)) + [n]
+      cbs = []
+      for a, b in zip(pts[:-1], pts[1:]):
+        lo, hi = sum(lb[a:b], F(0)), sum(hb[a:b], F(0))
+        w = hi - lo
+        l = lo + w*Fraction(rng.randint(-2, 3), 8)
+        h = max(l, lo) + (w if w > 0 else 1)*Fraction(rng.randint(1, 6), 8)
+        cbs.append([fs(l), fs(h if h > l else l + 1), a, b])
+      d['cbs'] = cbs; d['_py']['cform'] = '4tuples'
+      d['_special'] = 'ranges>=4'
+    elif cls == 'GDevice' and rng.random() < 0.45:
+      # degree up to 5, signed lower-order coefficients (the curve may dip below zero on part of the range)
+      def coeffs():
+        deg = rng.choice([2, 3, 4, 4, 5, 5])
+        return [fs(dy(rng, Fraction(1, 4), 2))] + [fs(dy(rng, -2, 2)) for _ in range(deg)]
+      d['prm']['cost_coeffs'] = coeffs() if rng.random() < 0.65 else self._rows(rng, n, coeffs)
+      d['_special'] = 'gdevice-signed-deg<=5'
+    elif cls == 'TDevice' and rng.random() < 0.35:
+      # freezers and cold climates
+      prm = d['prm']
+      prm['t_optimal'] = fs(dy(rng, -25, 5)); prm['t_init'] = fs(dy(rng, -30, 40))
+      prm['t_external'] = [fs(dy(rng, -30, 45, 1)) for _ in range(n)]
+      prm['efficiency'] = fs(rng.choice([1, -1, -1])*dy(rng, Fraction(1, 4), 8))
+      d['_special'] = 'tdevice-cold'
     if d.get('_special'):
       self.stats['special'][d['_special']] = self.stats['special'].get(d['_special'], 0) + 1
+
+  @staticmethod
+  def _rows(rng, n, coeffs):
+    """per-slot coefficient table: every row the same degree (numpy needs a rectangular table)."""
+    first = coeffs()
+    rows = [first]
+    for _ in range(n - 1):
+      rows.append([fs(dy(rng, Fraction(1, 4), 2))] + [fs(dy(rng, -2, 2)) for _ in first[1:]])
+    return rows
 
   def _flows(self, case):
     d = case['dev']
@@ -252,7 +354,15 @@ class C15(Prop):
   def oracle(self, case):
     N = np()
     d = case['dev']; cls, n, prm = d['cls'], d['n'], d['prm']
-    dev = build.build_leaf(d)
+    if case.get('probe'):
+      try:
+        dev = build.build_leaf(d)
+      except ValueError:
+        self.stats['probes_rejected'] = self.stats.get('probes_rejected', 0) + 1
+        return []       # rejected: fine (what must be rejected is C11's / C07's claim)
+      self.stats['probes_accepted'] = self.stats.get('probes_accepted', 0) + 1
+    else:
+      dev = build.build_leaf(d)
     p = build.price(case['p'])
     pv = (N.array(p, dtype=float)*N.ones(n)).tolist()
     lb = [pf(x) for x in d['lb']]; hb = [pf(x) for x in d['hb']]
